@@ -113,7 +113,8 @@ class Interpolator:
         else:
             self.xs = (np.array(fls),)
 
-            # Output values.
+            # Output values, in the order of the (sorted) flight levels.
+            df = df.sort_values('fl')
             self.tas = df.tas.values
             self.rocd = df.rocd.values
             self.fuel_flow = df.fuel_flow.values
